@@ -702,17 +702,6 @@ fn gen_args(rng: &mut Rng, cfg: &GenCfg, sw: &Swarm, names: &mut Names, c: &mut 
                 }
             }
         }
-        if cfg.allow_env && a.action.takes_values() && rng.chance(1, 5) {
-            // the variable is never set in a worker (the environment is scrubbed): only its name matters
-            a.env = Some(format!("CLAPSIMENV_{n:03}"));
-            if cfg.help_features {
-                match rng.below(6) {
-                    0 => a.hide_env = true,
-                    1 => a.hide_env_values = true,
-                    _ => {}
-                }
-            }
-        }
         decorate_help(rng, cfg, sw, &mut a, n, &headings);
         c.args.push(a);
     }
